@@ -34,6 +34,10 @@ Qed.
 
 (* the sensitive rows of an impl table: everything but marker traits nobody can override behaviour with *)
 Definition row := (string * string * string * list string)%type.
+Definition is_aux_trait (tr : string) : bool :=
+  String.eqb tr "Debug" || String.eqb tr "AlgorithmName" || String.eqb tr "Drop" || String.eqb tr "ZeroizeOnDrop".
+Definition aux_rows (t : list row) : list row := filter (fun r => match r with (_, tr, _, _) => is_aux_trait tr end) t.
+Definition core_rows (t : list row) : list row := filter (fun r => match r with (_, tr, _, _) => negb (is_aux_trait tr) end) t.
 Definition find_impl (tr ty : string) (t : list row) : list (string * list string) :=
   map (fun r => match r with (cfg, _, _, ms) => (cfg, ms) end)
       (filter (fun r => match r with (_, tr', ty', _) => String.eqb tr tr' && String.eqb ty ty' end) t).
@@ -225,3 +229,6 @@ Ltac run_prefix k :=
 (* evaluate the whole remaining statement list *)
 Ltac run_rest :=
   match goal with |- context [run_stmts ?ev ?e ?ss] => eval_sub (run_stmts ev e ss) end.
+
+(* a whole straight-line function: evaluate (discharging bound checks), then the result conversion *)
+Ltac run_fn := unfold call_fn, call_src; ev_checks; evf.
